@@ -263,6 +263,9 @@ int main() {
 #if !defined(C03_PART) || C03_PART == 4
     REG("zz", Modular<Integer>); REG("log16", Modular<Log16>);
     REG("ri7_7", Modular<RecInt::rint<7>, RecInt::rint<7> >);
+    // the other signed RecInt rings the library's own tests instantiate (rint64, rint256, rint64/rint128, rint128/rint256)
+    REG("ri6_6", Modular<RecInt::rint<6>, RecInt::rint<6> >); REG("ri8_8", Modular<RecInt::rint<8>, RecInt::rint<8> >);
+    REG("ri6_7", Modular<RecInt::rint<6>, RecInt::rint<7> >); REG("ri7_8", Modular<RecInt::rint<7>, RecInt::rint<8> >);
     REG("ru6_6", Modular<RecInt::ruint<6>, RecInt::ruint<6> >); REG("ru6_7", Modular<RecInt::ruint<6>, RecInt::ruint<7> >);
     REG("ru7_7", Modular<RecInt::ruint<7>, RecInt::ruint<7> >); REG("ru7_8", Modular<RecInt::ruint<7>, RecInt::ruint<8> >);
     REG("ru8_8", Modular<RecInt::ruint<8>, RecInt::ruint<8> >); REG("ru8_9", Modular<RecInt::ruint<8>, RecInt::ruint<9> >);
